@@ -4,6 +4,9 @@
 //!   `proc <json>`  the real `GridSearchPlugin {}.process(&mut value)`            -> `ok <json>` | `err <variant>` | `panic` | `diverges`
 //!   `ms <sets>`    the real `MultiSet::from(&sets).into_iter().collect()`         -> `ok <list of lists>`
 //!   `pipe <json>`  the real `apply_input_plugins(&query, &[GridSearchPlugin])`    -> `ok n <json>…` | `perr <request json>`
+//!   `jop <json>`   the real `json_array_op(&mut state, grid search)` on a whole query STATE (an array
+//!                  with several queries, as left by an earlier plugin), then `json_array_flatten`
+//!                                                                               -> `ok <state> (fok n <json>… | ferr <request>)` | `perr <request json>`
 //! JSON crosses the protocol through `jsonproto::enc` (key order preserved), so the model has to
 //! reproduce the implementation's output textually, key order included.
 //!
@@ -23,12 +26,15 @@
 //!   grid/panic            the plugin panicked (any other input; on a degenerate section: grid/degenerate)
 //!   multiset/count, multiset/duplicate, multiset/range   MultiSet over index sets
 //!   pipeline/expansion    apply_input_plugins does not return exactly the plugin's expansion
+//!   pipeline/state-flatten  json_array_op over a state of several queries does not return, in order, each
+//!                         query's own expansion (a query without grid section standing for itself)
 use crate::ctx::Ctx;
 use crate::jsonproto::enc;
 use crate::rng::Rng;
 use routee_compass::app::compass::compass_app::apply_input_plugins;
 use routee_compass::plugin::input::default::grid_search::plugin::GridSearchPlugin;
 use routee_compass::plugin::input::input_plugin::InputPlugin;
+use routee_compass::plugin::input::input_plugin_ops::{json_array_flatten, json_array_op};
 use routee_compass::plugin::input::InputPluginError;
 use routee_compass_core::util::multiset::MultiSet;
 use serde_json::{json, Map, Value};
@@ -706,12 +712,91 @@ fn corpus() -> Vec<(&'static str, Value)> {
     ]
 }
 
+/// `json_array_op` over a whole state, then the final `json_array_flatten`
+fn jop_case(ctx: &mut Ctx, state: &Value, branch: &str) {
+    if let Some(a) = state.as_array() {
+        if a.iter().any(|q| matches!(shape(q), Shape::Degenerate { no_axis: true })) {
+            return;
+        }
+    }
+    let Some(idx) = ctx.begin() else { return };
+    let r = std::panic::catch_unwind(std::panic::AssertUnwindSafe(|| {
+        let mut st = state.clone();
+        let plugin = GridSearchPlugin {};
+        let r = json_array_op(&mut st, std::rc::Rc::new(move |q: &mut Value| plugin.process(q)));
+        match r {
+            Err(resp) => Err(resp),
+            Ok(()) => {
+                let after = st.clone();
+                let fin = json_array_flatten(&mut st);
+                Ok((after, fin))
+            }
+        }
+    }));
+    let req = |resp: &Value| enc(resp.get("request").unwrap_or(&Value::Null));
+    let line = match &r {
+        Err(_) => "panic".to_string(),
+        Ok(Err(resp)) => format!("perr {}", req(resp)),
+        Ok(Ok((after, fin))) => {
+            let mut s = format!("ok {}", enc(after));
+            match fin {
+                Ok(qs) => {
+                    s.push_str(&format!(" fok {}", qs.len()));
+                    for x in qs {
+                        s.push(' ');
+                        s.push_str(&enc(x));
+                    }
+                }
+                Err(resp) => s.push_str(&format!(" ferr {}", req(resp))),
+            }
+            s
+        }
+    };
+    ctx.emit(idx, format!("jop {}", enc(state)), line.clone());
+    ctx.count("state_op");
+    ctx.count(&format!("state_op:{}", branch));
+    // oracle: when every element is a query object the plugin accepts on its own, the new state is the
+    // concatenation, in order, of each element's own expansion
+    let Some(a) = state.as_array() else { return };
+    let mut expected: Vec<Value> = vec![];
+    for q in a {
+        if !q.is_object() {
+            return;
+        }
+        match (shape(q), call_plugin(q)) {
+            (Shape::NoGrid, Real::Ok(v)) => expected.push(v),
+            (_, Real::Ok(Value::Array(gen))) => expected.extend(gen),
+            _ => return,
+        }
+    }
+    ctx.nontrivial(&format!("state:{}:{}", a.len(), expected.len()));
+    match &r {
+        Ok(Ok((after, Ok(fin)))) => {
+            if after.as_array() != Some(&expected) || fin != &expected {
+                ctx.fail(
+                    idx,
+                    "pipeline/state-flatten",
+                    format!("state of {} queries: expected {} queries after grid search, got {}", a.len(), expected.len(), clip(&after.to_string())),
+                );
+            }
+        }
+        _ => ctx.fail(idx, "pipeline/state-flatten", format!("state of {} valid queries was not processed: {}", a.len(), clip(&line))),
+    }
+}
+
 pub fn run(ctx: &mut Ctx) -> &'static str {
     // hand-written cases first
     for (branch, q) in corpus() {
         proc_case(ctx, &q, branch, None);
         pipe_case(ctx, &q);
     }
+    jop_case(ctx, &json!([{"a": 1}, {"b": 2, "grid_search": {"x": [1, 2], "y": ["p", "q"]}}]), "corpus_mixed");
+    jop_case(ctx, &json!([{"grid_search": {"x": [1, 2]}}, {"a": 1}, {"grid_search": {"y": [{"k": 1}, {"k": 2}, 3]}}]), "corpus_mixed");
+    jop_case(ctx, &json!([]), "corpus_empty");
+    jop_case(ctx, &json!([[{"a": 1}], {"b": 2}]), "corpus_nested");
+    jop_case(ctx, &json!([[[{"a": 1}]], {"b": 2}]), "corpus_nested");
+    jop_case(ctx, &json!({"a": 1}), "corpus_not_array");
+    jop_case(ctx, &json!([{"a": 1}, 5]), "corpus_scalar_element");
     ms_case(ctx, &vec![vec![1, 3], vec![2], vec![5, 7, 9]], false);
     ms_case(ctx, &vec![vec![0]], true);
     ms_case(ctx, &vec![vec![0], vec![0], vec![0]], true);
@@ -737,6 +822,46 @@ pub fn run(ctx: &mut Ctx) -> &'static str {
                 break;
             }
         }
+    }
+
+    // whole query states, as an earlier plugin may leave them
+    let n_state = ctx.n(800, 8000);
+    for k in 0..n_state {
+        let mut rng = Rng::for_case(ctx.seed, 1717, k as u64);
+        let len = if rng.chance(1, 12) { 0 } else { 1 + rng.below(5) };
+        let malformed = rng.chance(1, 5);
+        let mut grids = 0;
+        let mut elems: Vec<Value> = vec![];
+        for _ in 0..len {
+            let pick = rng.below(if malformed { 8 } else { 5 });
+            let e = match pick {
+                0 | 1 => Value::Object(object(&mut rng, 2, 4)),
+                2 | 3 | 4 => {
+                    grids += 1;
+                    let sizes: Vec<usize> = (0..1 + rng.below(3)).map(|_| 1 + rng.below(3)).collect();
+                    let spec = GridSpec { sizes, fresh: rng.chance(1, 2), before: rng.below(3), after: rng.below(3), noise: rng.below(2) };
+                    grid_query(&mut rng, &spec).0
+                }
+                5 => value(&mut rng, 2),
+                6 => Value::Array((0..rng.below(3)).map(|_| value(&mut rng, 1)).collect()),
+                _ => {
+                    let mut o = object(&mut rng, 1, 3);
+                    o.insert(GRID.to_string(), if rng.chance(1, 2) { json!({"x": []}) } else { value(&mut rng, 1) });
+                    Value::Object(o)
+                }
+            };
+            elems.push(e);
+        }
+        let branch = if malformed {
+            "malformed_elements"
+        } else if grids == 0 {
+            "no_grid"
+        } else if grids == len {
+            "all_grid"
+        } else {
+            "mixed"
+        };
+        jop_case(ctx, &Value::Array(elems), branch);
     }
 
     let n = ctx.n(3000, 30000);
